@@ -37,7 +37,8 @@ META = {
     'decided': ['D1 BEGIN only after OK with a GUID',
                 'D2 descriptor negotiation concludes',
                 'D3 mechanisms in order, at most once; exhaustion closes',
-                'D4 no silent transition', 'D5 unknown line closes, and closing '
+                'D4 no silent transition (incl. keyring failures are answered)',
+                'D5 unknown line closes, and closing '
                 'is final (no later line of the same read is processed)',
                 'D6 attribute discipline',
                 'D7 line framing independent of read splitting (shared with '
